@@ -108,14 +108,14 @@ theorem findSpec_length {c : Cache} {prompt : List Tok} {c1 : Cache} {i n : Nat}
   · simp [setSlot]
 
 /-- the shape of every successful `loadTail` (either branch) -/
-theorem loadTail_shape (c : Cache) (i n : Nat) (prompt : List Tok) (now : Nat) (cr : Bool)
+theorem loadTail_shape (c : Cache) (i n : Nat) (prompt : List Tok) (now : Nat) (cr : CanRes)
     (c' : Cache) (j : Nat) (rest : List Tok) (h : loadTail c i n prompt now cr = .ok (c', j, rest)) :
     ∃ m, m ≤ n ∧ (prompt ≠ [] → n ≤ prompt.length → m < prompt.length) ∧ j = i ∧ rest = prompt.drop m ∧
       c'.slots = setSlot c.slots i (fun s => { s with inUse := true, lastUsed := now, inputs := s.inputs.take m }) := by
   unfold loadTail at h
   simp only at h
   generalize hm1 : (if n = prompt.length then n - 1 else n) = m1 at h
-  generalize hm2 : (if (decide (m1 > 0) && !cr) = true then 0 else m1) = m2 at h
+  generalize hm2 : (if (decide (m1 > 0) && !cr c.cells (getSlot c.slots i).id m1) = true then 0 else m1) = m2 at h
   have hm1n : m1 ≤ n := by rw [← hm1]; split <;> omega
   have hm2n : m2 ≤ m1 := by rw [← hm2]; split <;> omega
   have hlt : prompt ≠ [] → n ≤ prompt.length → m1 < prompt.length := by
@@ -132,7 +132,7 @@ theorem loadTail_shape (c : Cache) (i n : Nat) (prompt : List Tok) (now : Nat) (
       exact ⟨0, by omega, fun hp hn => List.length_pos_iff.mpr hp, rfl, rfl, rfl⟩
     · cases h
 
-theorem load_split (c : Cache) (prompt : List Tok) (now : Nat) (cr : Bool) (c' : Cache) (i : Nat)
+theorem load_split (c : Cache) (prompt : List Tok) (now : Nat) (cr : CanRes) (c' : Cache) (i : Nat)
     (rest : List Tok) (h : loadCacheSlot c prompt now cr = .ok (c', i, rest)) :
     ∃ c1 i0 n, findSlot c prompt now = .ok (c1, i0, n) ∧ loadTail c1 i0 n prompt now cr = .ok (c', i, rest) := by
   unfold loadCacheSlot at h
@@ -142,7 +142,7 @@ theorem load_split (c : Cache) (prompt : List Tok) (now : Nat) (cr : Bool) (c' :
 
 /-- **A slot in use is never given to a second request.**  Whenever LoadCacheSlot succeeds (either
     policy, any cache contents, any CanResume answer), the slot it returns exists and was not in use. -/
-theorem slot_exclusive (c : Cache) (prompt : List Tok) (now : Nat) (cr : Bool) (c' : Cache) (i : Nat)
+theorem slot_exclusive (c : Cache) (prompt : List Tok) (now : Nat) (cr : CanRes) (c' : Cache) (i : Nat)
     (rest : List Tok) (h : loadCacheSlot c prompt now cr = .ok (c', i, rest)) :
     ∃ hi : i < c.slots.length, c.slots[i].inUse = false := by
   obtain ⟨c1, i0, n, hf, ht⟩ := load_split c prompt now cr c' i rest h
@@ -152,7 +152,7 @@ theorem slot_exclusive (c : Cache) (prompt : List Tok) (now : Nat) (cr : Bool) (
 
 /-- **No free slot, no load.**  If every slot is in use, LoadCacheSlot does not succeed (the single-user
     policy returns "no available cache slots"; the multi-user policy dereferences nil — F22). -/
-theorem no_free_slot_no_load (c : Cache) (prompt : List Tok) (now : Nat) (cr : Bool)
+theorem no_free_slot_no_load (c : Cache) (prompt : List Tok) (now : Nat) (cr : CanRes)
     (hall : ∀ sl ∈ c.slots, sl.inUse = true) :
     ∀ r, loadCacheSlot c prompt now cr ≠ .ok r := by
   intro r h
@@ -164,7 +164,7 @@ theorem no_free_slot_no_load (c : Cache) (prompt : List Tok) (now : Nat) (cr : B
 /-- **The reused prefix is a prefix of the new prompt, and something is left to process.**  After a
     successful LoadCacheSlot the slot's record followed by the remaining inputs is exactly the prompt,
     and at least one input remains. -/
-theorem prefix_reuse_sound (c : Cache) (prompt : List Tok) (now : Nat) (cr : Bool) (c' : Cache) (i : Nat)
+theorem prefix_reuse_sound (c : Cache) (prompt : List Tok) (now : Nat) (cr : CanRes) (c' : Cache) (i : Nat)
     (rest : List Tok) (hp : prompt ≠ []) (h : loadCacheSlot c prompt now cr = .ok (c', i, rest)) :
     (getSlot c'.slots i).inputs ++ rest = prompt ∧ rest ≠ [] ∧ (getSlot c'.slots i).inUse = true := by
   obtain ⟨c1, i0, n, hf, ht⟩ := load_split c prompt now cr c' i rest h
@@ -267,7 +267,7 @@ theorem coherent_find (c : Cache) (hc : Coherent c) (prompt : List Tok) (c1 : Ca
         simp only [hl]
         simpa using (List.mem_filter.mp hx).2
 
-theorem loadTail_ok (c : Cache) (i n : Nat) (prompt : List Tok) (now : Nat) (cr : Bool) (hb : PosBound c.cells)
+theorem loadTail_ok (c : Cache) (i n : Nat) (prompt : List Tok) (now : Nat) (cr : CanRes) (hb : PosBound c.cells)
     (c' : Cache) (j : Nat) (rest : List Tok) (h : loadTail c i n prompt now cr = .ok (c', j, rest)) :
     ∃ m, m ≤ n ∧
       c' = { c with cells := (remove c.canShift c.cells (getSlot c.slots i).id (m : Int) maxI32).1,
@@ -275,7 +275,7 @@ theorem loadTail_ok (c : Cache) (i n : Nat) (prompt : List Tok) (now : Nat) (cr 
   unfold loadTail at h
   simp only at h
   generalize hm1 : (if n = prompt.length then n - 1 else n) = m1 at h
-  generalize hm2 : (if (decide (m1 > 0) && !cr) = true then 0 else m1) = m2 at h
+  generalize hm2 : (if (decide (m1 > 0) && !cr c.cells (getSlot c.slots i).id m1) = true then 0 else m1) = m2 at h
   have hm1n : m1 ≤ n := by rw [← hm1]; split <;> omega
   have hm2n : m2 ≤ m1 := by rw [← hm2]; split <;> omega
   have hrc := (remove_clear c.canShift c.cells (getSlot c.slots i).id (m2 : Int) hb).1
@@ -283,7 +283,7 @@ theorem loadTail_ok (c : Cache) (i n : Nat) (prompt : List Tok) (now : Nat) (cr 
   exact ⟨m2, by omega, h.1.symm⟩
 
 theorem coherent_loadTail (c : Cache) (hc : Coherent c) (i n : Nat) (hi : i < c.slots.length)
-    (hn : n ≤ (getSlot c.slots i).inputs.length) (prompt : List Tok) (now : Nat) (cr : Bool)
+    (hn : n ≤ (getSlot c.slots i).inputs.length) (prompt : List Tok) (now : Nat) (cr : CanRes)
     (c' : Cache) (j : Nat) (rest : List Tok) (h : loadTail c i n prompt now cr = .ok (c', j, rest)) :
     Coherent c' := by
   obtain ⟨m, hmn, rfl⟩ := loadTail_ok c i n prompt now cr hc.1 c' j rest h
@@ -462,7 +462,7 @@ theorem coherent_finish (c : Cache) (hc : Coherent c) (i k : Nat) (hi : i < c.sl
     that takes its failure path (ErrReprocessInputs) is part of the alphabet. -/
 inductive Step (allowFail : Bool) : Cache → Cache → Prop
   /-- LoadCacheSlot for a new request (any prompt, time, CanResume answer, either policy) -/
-  | load (c : Cache) (prompt : List Tok) (now : Nat) (cr : Bool) (c' : Cache) (i : Nat) (rest : List Tok) :
+  | load (c : Cache) (prompt : List Tok) (now : Nat) (cr : CanRes) (c' : Cache) (i : Nat) (rest : List Tok) :
       loadCacheSlot c prompt now cr = .ok (c', i, rest) → Step allowFail c c'
   /-- Forward of `new` for the request owning slot `i` (positions = record length + k, any free
       placement), followed by the append to the record -/
@@ -510,7 +510,7 @@ theorem shift_resetEnd (c : Cache) (i keep : Nat) (c' : Cache)
         · cases h; rfl
         · cases h
 
-theorem load_coherent (c : Cache) (hc : Coherent c) (prompt : List Tok) (now : Nat) (cr : Bool) (c' : Cache)
+theorem load_coherent (c : Cache) (hc : Coherent c) (prompt : List Tok) (now : Nat) (cr : CanRes) (c' : Cache)
     (i : Nat) (rest : List Tok) (h : loadCacheSlot c prompt now cr = .ok (c', i, rest)) :
     Coherent c' ∧ c'.resetEnd = c.resetEnd := by
   obtain ⟨c1, i0, n, hf, ht⟩ := load_split c prompt now cr c' i rest h
@@ -566,10 +566,12 @@ theorem coherent_invariant_partial (c0 c : Cache) (h0 : Coherent c0) (hs : Steps
   | refl => exact h0
   | tail b c _ hstep ih => exact (coherent_step false b c ih hstep (fun h => by cases h)).1
 
-/-- a brand-new runner is coherent -/
-theorem coherent_init (resetEnd : Int) (parallel ctx batch : Nat) (multi canShift : Bool) (vocab eosMod : Nat) :
-    Coherent (mkServer resetEnd parallel ctx batch multi canShift vocab eosMod).cache := by
+/-- a brand-new runner is coherent (plain or sliding-window cache) -/
+theorem coherent_init (resetEnd : Int) (parallel ctx batch : Nat) (multi canShift : Bool) (vocab eosMod : Nat)
+    (window : Option Nat := none) :
+    Coherent (mkServer resetEnd parallel ctx batch multi canShift vocab eosMod window).cache := by
   unfold mkServer
+  generalize capacity parallel ctx batch window = cap
   refine ⟨?_, fun j hj => ?_⟩
   · intro x hx
     simp only [List.mem_replicate] at hx
@@ -577,7 +579,7 @@ theorem coherent_init (resetEnd : Int) (parallel ctx batch : Nat) (multi canShif
   · simp only [List.length_map, List.length_range] at hj
     simp only [List.getElem_map, List.getElem_range]
     refine ⟨trivial, ?_, ?_⟩
-    · have : view (List.replicate (parallel * ctx) Cell.free) j = [] := by
+    · have : view (List.replicate cap Cell.free) j = [] := by
         apply view_free
         intro x hx
         simp only [List.mem_replicate] at hx
@@ -694,7 +696,7 @@ theorem fresh_equiv_tokens (vocab eosMod : Nat) (c fresh : Cache) (hc : Coherent
     and the length of the record. -/
 def f3Trace (resetEnd : Int) : List (Tok × Int) × Nat :=
   let c0 := (mkServer resetEnd 1 4 1 false false 3 0).cache
-  match loadCacheSlot c0 [1, 1, 1, 1] 1 true with
+  match loadCacheSlot c0 [1, 1, 1, 1] 1 (fun _ _ _ => true) with
   | .ok (c1, i, rest) =>
     let c2 := forward c1 i rest 0
     match shiftCacheSlot c2 i 0 with
@@ -714,10 +716,10 @@ theorem F3_pinned_reset_leaves_stale_entries :
 /-- non-vacuity: the hypotheses of the invariant and of `forward_exposes` are met by a real history
     (new runner, load, forward of the whole prompt) -/
 example : ∃ c1 i rest,
-    loadCacheSlot (mkServer maxI32 2 8 4 true true 5 0).cache [1, 2, 3] 1 true = .ok (c1, i, rest) ∧
+    loadCacheSlot (mkServer maxI32 2 8 4 true true 5 0).cache [1, 2, 3] 1 (fun _ _ _ => true) = .ok (c1, i, rest) ∧
     Steps true (mkServer maxI32 2 8 4 true true 5 0).cache (forward c1 i rest 0) := by
   refine ⟨_, _, _, rfl, ?_⟩
-  refine .tail _ _ _ (.tail _ _ _ (.refl _) (.load _ [1, 2, 3] 1 true _ _ _ rfl)) (.forward _ _ _ _ ?_ ?_ ?_ ?_)
+  refine .tail _ _ _ (.tail _ _ _ (.refl _) (.load _ [1, 2, 3] 1 (fun _ _ _ => true) _ _ _ rfl)) (.forward _ _ _ _ ?_ ?_ ?_ ?_)
   · decide
   · decide
   · decide
